@@ -156,6 +156,17 @@ def gen_behaviours(v, tier, tag, sync, configs=None, maxops=None):
     return out, len(seen)
 
 
+def sample_behaviours(bfile, limit):
+    """Keep a seeded sample of at most `limit` behaviours of a behaviours file (in place)."""
+    lines = open(bfile).read().splitlines()
+    body = lines[1:]
+    if len(body) > limit:
+        rnd = random.Random(seed() * 31337 + len(body))
+        body = rnd.sample(body, limit)
+        open(bfile, "w").write("\n".join([lines[0]] + body) + "\n")
+    return bfile, len(body)
+
+
 def random_behaviours(tag, sync, runs, length, scope):
     """Random workloads; scope 'size' uses entries around and above the 8 KiB write buffer."""
     rnd = random.Random(seed() * 7919 + sum(scope.encode()) % 1000)   # (str hashes differ from process to process)
@@ -203,6 +214,9 @@ def drive(v, prop, tier, tag):
     q = tier == "quick"
     sets = []
     gfile, ng = gen_behaviours(v, tier, tag, sync)
+    if mode == "fault" and not q:
+        # every call of every behaviour is failed two or three times: the thorough tier samples the larger generated set
+        gfile, ng = sample_behaviours(gfile, 3000)
     sets.append(("generated", gfile, ng, 10**6))
     if mode != "fault" or not q:
         # one operation deeper on the two configurations where an older, mostly-live file sits below an
@@ -215,6 +229,8 @@ def drive(v, prop, tier, tag):
             keep = [lines[0]] + [x for n, x in enumerate(lines[1:]) if (n + seed()) % 3 == 0]
             open(dfile, "w").write("\n".join(keep) + "\n")
             nd = len(keep) - 1
+        if mode == "fault":
+            dfile, nd = sample_behaviours(dfile, 2000)
         sets.append(("generated-deep", dfile, nd, 10**6))
     if mode == "fault":
         sets.append(("random-wide", *random_behaviours(tag, sync, 10 if q else 60, 12, "wide"), 40))
@@ -250,6 +266,8 @@ def under_faults(v, prop, tier, tag, keep=lambda b: True, share=2):
     kept = [x for x in lines[1:] if keep(json.loads(x))]
     if tier == "quick":
         kept = [x for n, x in enumerate(kept) if (n + seed()) % share == 0]
+    elif len(kept) > 3000:
+        kept = random.Random(seed() * 31337 + len(kept)).sample(kept, 3000)      # (thorough: the larger generated set is sampled)
     open(gfile, "w").write("\n".join([lines[0]] + kept) + "\n")
     files, sums, aborts = [], [], []
     plans = [("uf", gfile, [], len(kept)), ("uf-short", gfile, ["--short-writes"], len(kept))]
